@@ -106,6 +106,11 @@ def gen_report(rng, ts, keys=None, wide=False):
             rep[k] = pick(rng, 0.0, 400.0, [0.0, 0.05, 0.1, 12.4, 12.5, 12.6, 12.75, 25.6, 360.0], 10)
     if rng.random() < 0.04:
         del rep["lat"], rep["lon"]
+    if rng.random() < 0.03:
+        # JSON numbers without a fraction arrive as Python ints ("speed": 0, "track": 90)
+        for k in list(rep):
+            if k != "ts" and rng.random() < 0.6:
+                rep[k] = int(rep[k])
     return rep
 
 
